@@ -235,7 +235,10 @@ pub fn build_history(intents: &[Intent], p: &GenParams, head: &Intent) -> Built 
     for (i, sec) in secs.iter().enumerate() {
         let want = if p.opening_all_secs { (head.flag >> (2 * i)) % 2 == 0 } else { i == 0 && head.flag % 4 == 0 };
         if !want { continue; }
-        let (sh, acb) = pick(head.qty.wrapping_add((i as u16).wrapping_mul(13001)), &[("10", "1000"), ("3", "10"), ("0.5", "33.33"), ("100", "0"), ("7", "100.01"), ("0", "0")]);
+        // (a position of no shares that still carries a cost base - e.g. after a fully denied loss - has no equivalent purchase row, so the
+        // C16 generator, which compares with one, leaves it out)
+        let table: &[(&str, &str)] = if p.opening_all_secs { &[("10", "1000"), ("3", "10"), ("0.5", "33.33"), ("100", "0"), ("7", "100.01"), ("0", "0")] } else { &[("10", "1000"), ("3", "10"), ("0.5", "33.33"), ("100", "0"), ("7", "100.01"), ("0", "0"), ("0", "12.5"), ("0", "150")] };
+        let (sh, acb) = pick(head.qty.wrapping_add((i as u16).wrapping_mul(13001)), table);
         opening.push((sec.to_string(), sh.to_string(), acb.to_string()));
         let e = st.entry(sec.to_string()).or_default();
         e.afs.insert("default".into(), AfState { bal: Rat::parse(sh).unwrap(), acb: Rat::parse(acb).unwrap() });
